@@ -126,3 +126,74 @@ def selftest(ctx, binp, scen, lines):
     summ, fails = replay(ctx, binp, scen, mut, "mut", workers=2)
     if summ["fail"] != 2:
         raise Infra("binding self-test failed: %d of 2 corrupted predictions rejected" % summ["fail"])
+
+
+def record_validate(ctx, binp, nscen, nblocks, orders, tag="rv"):
+    """R->V: seeded random scenarios delivered in random orders to real chains; every observation must be what
+    Ledger.tla computes (TraceLedger). Returns (#histories validated, #events, states)."""
+    import concurrent.futures, re
+
+    def one(i):
+        seed = ctx.seed * 1000 + i
+        d = os.path.join(ctx.scratch, "%s-%d" % (tag, i))
+        os.makedirs(d, exist_ok=True)
+        scen, tr = os.path.join(d, "scenario.json"), os.path.join(d, "trace.ndjson")
+        argv = [binp, "record", "-dir", d, "-seed", str(seed), "-blocks", str(nblocks), "-orders", str(orders),
+                "-scenario-out", scen, "-trace-out", tr]
+        if i % 3 == 2:
+            argv.append("-compress")
+        p = ctx.run(argv, timeout=1200)
+        if p.returncode != 0:
+            raise Infra("ledger record failed: " + p.stderr[-2000:])
+        summ = None
+        for ln in reversed(p.stdout.splitlines()):
+            if ln.startswith("{"):
+                summ = json.loads(ln)
+                break
+        if summ is None:
+            raise Infra("ledger record printed no summary")
+        r = ctx.tlc("TraceLedger", "Ledger_trace", workers=1, timeout=1200, files={"scenario.json": scen, "trace.ndjson": tr})
+        hw = None
+        for line in open(r.outpath, errors="replace"):
+            m = re.search(r"VFREJECT\", (\d+)", line)
+            if m:
+                hw = int(m.group(1))
+        return i, seed, summ, r, hw, scen, tr
+
+    hist = events = states = 0
+    keep = None
+    with concurrent.futures.ThreadPoolExecutor(8) as ex:
+        for i, seed, summ, r, hw, scen, tr in ex.map(one, range(nscen)):
+            for pr in summ.get("problems", []):
+                ctx.violation("%s:utxo-record:%s" % (ctx.pid, re.sub(r"\d+", "N", pr)[:60]), {"scenario_seed": seed, "problem": pr}, pr)
+            if r.ok:
+                hist += orders
+                events += summ["events"]
+                states += r.distinct or 0
+                if keep is None:
+                    keep = (scen, tr)
+                continue
+            if hw is None and not r.invariant:
+                raise Infra("TraceLedger run broke\n" + r.tail)
+            lines = open(tr).read().splitlines()
+            ev = json.loads(lines[hw - 1]) if hw and hw <= len(lines) else {}
+            ev.pop("unew", None)
+            what = "random history (scenario seed %d) is not a behaviour of Ledger at event %s: %s" % (seed, hw, json.dumps(ev)[:200])
+            if r.invariant:
+                what = "invariant %s violated on a recorded random history (scenario seed %d, event %s)" % (r.invariant, seed, hw)
+            ctx.violation("%s:trace:%s" % (ctx.pid, r.invariant or ("acc=%s" % ev.get("acc"))),
+                          {"scenario": json.load(open(scen)), "trace": lines[:(hw or 0) + 1][-40:], "tlc": r.tail[-2000:]}, what)
+    # binding self-test: a corrupted observation must be rejected
+    if keep and not ctx.violations:
+        scen, tr = keep
+        lines = open(tr).read().splitlines()
+        k = next(i for i, l in enumerate(lines) if '"acc":true' in l)
+        j = json.loads(lines[k])
+        j["tip"] = j["tip"] + 1 if j["tip"] != 1 else 2
+        lines[k] = json.dumps(j)
+        mp = os.path.join(ctx.scratch, "rv-mut.ndjson")
+        open(mp, "w").write("\n".join(lines[:k + 2]) + "\n")
+        r = ctx.tlc("TraceLedger", "Ledger_trace", workers=1, timeout=600, files={"scenario.json": scen, "trace.ndjson": mp})
+        if r.ok:
+            raise Infra("binding self-test failed: a corrupted recorded observation was accepted by TraceLedger")
+    return hist, events, states
